@@ -267,17 +267,21 @@ class MQTTProtocol(MQTTBaseProtocol):
         try:
             msg = self.factory.windowPubRx[self.addr][response.msgId]
         except KeyError as e:
+            msg = None
             log.debug("==> {packet:7}(id={response.msgId:04x} dup={response.dup}) already handled" , packet="PUBREL", response=response)
         else:
             log.debug("==> {packet:7}(id={response.msgId:04x} dup={response.dup})" , packet="PUBREL", response=response)
             del self.factory.windowPubRx[self.addr][response.msgId]
-            self._deliver(msg)
         # A PUBREL repeated by the broker (our previous PUBCOMP got lost) must be
         # answered as well, or the broker keeps repeating it [MQTT-4.3.3-2]
+        # The answer goes out before the message is handed to the application 
+        # (as PUBACK does for QoS 1): the handler may well decide to disconnect.
         reply = PUBCOMP()
         reply.msgId = response.msgId
         log.debug("<== {packet:7} (id={response.msgId:04x})" , packet="PUBCOMP", response=response)
         self.transport.write(reply.encode())
+        if msg is not None:
+            self._deliver(msg)
 
 
     # --------------------------------------------------------------------------
